@@ -395,6 +395,9 @@ class CRef:
             if v.null:
                 raise Undefined("nullderef")
             ms = self.dm.method(v.cls, name, len(args))
+            if name == "getAttributeFloat" and self.dm.backend == "atlas" and len(args) == 1:
+                from .model import MethodSpec, TNum
+                ms = MethodSpec("getAttribute<float>", TNum("float"), 1)
             return self.call_method(v.cls, ms, v.oid, args)
         if isinstance(v, dict) and name in v:
             return v[name]
@@ -426,6 +429,8 @@ class CRef:
                 a = [x[1] for x in av]
                 c = mathfn.canonical(name)
                 try:
+                    if c in mathfn.CPP_INT_RESULT:
+                        return ("int", int(PYMATH[c](*[float(x) for x in a])))
                     return ("double", float(PYMATH[c](*[float(x) for x in a])))
                 except (ValueError, OverflowError, ZeroDivisionError):
                     raise Unspecified()
